@@ -67,6 +67,26 @@ pub fn record_c13(_args: &Args, mut out: Out) -> usize {
             parse_card(format!("{}{}", a as char, b as char), &mut out);
         }
     }
+    // the same strings again, each right after a successful parse of some card (a result must not depend on the call before)
+    {
+        let mut k = 0usize;
+        let mut after_card = |s: String, out: &mut Out| {
+            let warm = card(k % 52).to_string();
+            k += 1;
+            let s2 = s.clone();
+            let r = guarded(move || {
+                let _ = warm.parse::<Card>();
+                s2.parse::<Card>().map(|c| card_id(&c) as i32).unwrap_or(-1)
+            })
+            .unwrap_or(-2);
+            out.line(&format!("{{\"op\":\"cparse\",\"s\":{},\"out\":{},\"after\":{}}}", codes(&s), r, (k - 1) % 52));
+        };
+        for a in 0u8..128 {
+            for b in 0u8..128 {
+                after_card(format!("{}{}", a as char, b as char), &mut out);
+            }
+        }
+    }
     // ranks and suits: numbers, characters, text, successor / predecessor
     for (i, r) in RANKS.iter().enumerate() {
         let r = *r;
@@ -164,6 +184,37 @@ pub fn record_c13(_args: &Args, mut out: Out) -> usize {
             }
         }
     }
+    // the same ranges consumed from both ends alternately (front, back, front, ...) and reassembled in order
+    for a in 0..13 {
+        for b in a..13 {
+            for incl in [false, true] {
+                let (x, y) = (RANKS[a], RANKS[b]);
+                let v = guarded(move || {
+                    let rr = if incl { RankRange::inclusive(x, y) } else { RankRange::new(x, y) };
+                    let mut it = rr.into_iter();
+                    let (mut front, mut back) = (vec![], vec![]);
+                    loop {
+                        match it.next() {
+                            Some(r) => front.push(rank_id(&r) as i32),
+                            None => break,
+                        }
+                        match it.next_back() {
+                            Some(r) => back.push(rank_id(&r) as i32),
+                            None => break,
+                        }
+                    }
+                    back.reverse();
+                    front.extend(back);
+                    front
+                })
+                .unwrap_or(vec![-2]);
+                out.line(&format!(
+                    "{{\"op\":\"range\",\"kind\":\"rank\",\"form\":\"{}\",\"a\":{},\"b\":{},\"out\":{},\"ends\":1}}",
+                    if incl { "incl" } else { "new" }, a, b, list(&v)
+                ));
+            }
+        }
+    }
     let v = guarded(|| RankRange::all().into_iter().map(|r| rank_id(&r) as i32).collect::<Vec<_>>()).unwrap_or(vec![-2]);
     out.line(&format!("{{\"op\":\"range\",\"kind\":\"rank\",\"form\":\"all\",\"a\":0,\"b\":0,\"out\":{}}}", list(&v)));
     let v = guarded(|| SuitRange::all().into_iter().map(|r| suit_id(&r) as i32).collect::<Vec<_>>()).unwrap_or(vec![-2]);
@@ -236,6 +287,60 @@ pub fn record_c14(_args: &Args, mut out: Out) -> usize {
                 ));
             }
         }
+    }
+    // every pair formatted once more, in another order (stride 17 through the 1326 pairs, then backwards)
+    {
+        let all: Vec<(usize, usize)> = (0..52).flat_map(|a| ((a + 1)..52).map(move |b| (a, b))).collect();
+        let n = all.len();
+        // blocks of 20: all twenty, then the same twenty backwards (a pair formatted again while its neighbours are recent)
+        let mut order: Vec<usize> = vec![];
+        let mut i = 0;
+        while i < n {
+            let blk: Vec<usize> = (i..(i + 20).min(n)).map(|j| (j * 17) % n).collect();
+            order.extend(blk.iter());
+            order.extend(blk.iter().rev());
+            i += 20;
+        }
+        for i in order {
+            let (a, b) = all[i];
+            let p = CardPair::new(card(b), card(a));
+            let t = guarded(move || p.to_string()).unwrap_or_default();
+            out.line(&format!("{{\"op\":\"text2\",\"a\":{},\"b\":{},\"text\":{}}}", a, b, codes(&t)));
+        }
+    }
+    // several threads parsing their own texts at the same time: a repetition whose result differs from the expected pair
+    // is logged (and judged by TLC); the summary says how many parses were made
+    {
+        let threads = 8usize;
+        let reps = 600_000usize;
+        let barrier = std::sync::Arc::new(std::sync::Barrier::new(threads));
+        let mut hs = vec![];
+        for t in 0..threads {
+            let barrier = barrier.clone();
+            hs.push(std::thread::spawn(move || {
+                barrier.wait();
+                let (a, b) = (4 * t + t % 4, 30 + 2 * t + (t + 1) % 4);
+                let texts = [format!("{}{}", card(a), card(b)), format!("{}{}", card(b), card(a))];
+                let mut bad = vec![];
+                for k in 0..reps {
+                    let r = texts[(k / 2) % 2].parse::<CardPair>().ok().map(|x| pair_ids(&x));   // each text twice in a row
+                    if r != Some((a.min(b), a.max(b))) && bad.len() < 5 {
+                        bad.push(r);
+                    }
+                }
+                (a, b, bad)
+            }));
+        }
+        let mut total_bad = 0;
+        for h in hs {
+            let (a, b, bad) = h.join().unwrap();
+            for r in bad {
+                total_bad += 1;
+                let pj = r.map(|(x, y)| format!("[{},{}]", x, y)).unwrap_or("[-1]".to_string());
+                out.line(&format!("{{\"op\":\"cpar\",\"a\":{},\"b\":{},\"parsed\":{}}}", a, b, pj));
+            }
+        }
+        out.line(&format!("{{\"op\":\"cparsum\",\"threads\":{},\"parses\":{},\"deviating\":{}}}", threads, threads * reps, total_bad));
     }
     // pair values that reach the user by other routes than CardPair::new / parse: the combos of every rank pair
     // (both rank orders), expanded directly and through a parsed token and a parsed range
